@@ -34,9 +34,12 @@ def main():
     src = "/tmp/seed/out"
     checks = [prop]
     tag = ""
+    base = "HEAD"
     for i, a in enumerate(sys.argv):
         if a == "--tag":
             tag = sys.argv[i + 1] + "-"
+        if a == "--base":
+            base = sys.argv[i + 1]
         if a == "--src":
             src = sys.argv[i + 1]
         if a == "--checks":
@@ -52,8 +55,8 @@ def main():
     meta = json.load(open(os.path.join(d, "meta.json")))
     wt = tempfile.mkdtemp(prefix="seedwt-", dir="/tmp")
     os.rmdir(wt)
-    sh(f"git -C /repo worktree add -q --detach {wt} HEAD")
-    report = {"property": prop, "n": n, "pkg": pkg, "run": regex, "head": sh("git -C /repo rev-parse --short HEAD")[1].strip()}
+    sh(f"git -C /repo worktree add -q --detach {wt} {base}")
+    report = {"property": prop, "n": n, "pkg": pkg, "run": regex, "head": sh(f"git -C /repo rev-parse --short {base}")[1].strip()}
     ok = False
     try:
         # uncommitted hooks are part of the tree the checks build against
